@@ -91,6 +91,9 @@ StrLeaves == <<
   D("O-2-ext", TOctets(CExt(R(2, 2)))),
   D("O-1-2-ext", TOctets(CExt(R(1, 2)))),
   D("O-min5", TOctets(CRange(BI(5), BMax))),
+  D("O-1-65535", TOctets(R(1, 65535))),
+  D("O-1-65536", TOctets(R(1, 65536))),
+  D("O-0-65537", TOctets(R(0, 65537))),
   D("S-ia5", IA5),
   D("S-ia5-1-4", TStr("IA5", R(1, 4), <<>>)),
   D("S-ia5-3", TStr("IA5", R(3, 3), <<>>)),
@@ -141,6 +144,8 @@ TagLeaves == <<
 
 \* ---- constructed types over a palette ---------------------------------------
 I07 == TInt(R(0, 7))
+TN(n) == Comp("x", TTag("C", n, "I", TBool), "O")
+TA(cl, n, t) == Comp("x", TTag(cl, n, "I", t), "M")
 Constructed == <<
   D("Q-empty", TSeq(<<>>, FALSE, <<>>)),
   D("Q-one", TSeq(<<C(Int0)>>, FALSE, <<>>)),
@@ -155,6 +160,9 @@ Constructed == <<
   D("Q-ext1", TSeq(<<C(I07), O(TBool)>>, TRUE, <<C(Int0)>>)),
   D("Q-ext2", TSeq(<<C(TBool)>>, TRUE, <<C(IA5), O(I07)>>)),
   D("Q-ext3", TSeq(<<>>, TRUE, <<C(TBool), C(TOctets(CNone)), C(TNull)>>)),
+  D("Q-ext7", TSeq(<<C(I07)>>, TRUE, <<TN(0), TN(1), TN(2), TN(3), TN(4), TN(5), TN(6)>>)),
+  D("Q-ext8", TSeq(<<C(I07)>>, TRUE, <<TN(0), TN(1), TN(2), TN(3), TN(4), TN(5), TN(6), TN(7)>>)),
+  D("Q-ext9", TSeq(<<C(I07)>>, TRUE, <<TN(0), TN(1), TN(2), TN(3), TN(4), TN(5), TN(6), TN(7), TN(8)>>)),
   D("Q-opt9", TSeq(<<Comp("x", TTag("C", 0, "I", TNull), "O"), Comp("x", TTag("C", 1, "I", TNull), "O"),
                      Comp("x", TTag("C", 2, "I", TNull), "O"), Comp("x", TTag("C", 3, "I", TNull), "O"),
                      Comp("x", TTag("C", 4, "I", TNull), "O"), Comp("x", TTag("C", 5, "I", TNull), "O"),
@@ -175,6 +183,8 @@ Constructed == <<
   D("K-one", TChoice(<<C(TNull)>>, FALSE, <<>>)),
   D("K-order", TChoice(<<Comp("x", TTag("C", 2, "I", Int0), "M"), Comp("x", TTag("C", 0, "I", TBool), "M"),
                          Comp("x", TTag("A", 9, "I", IA5), "M"), C(TNull)>>, FALSE, <<>>)),
+  D("K-tags", TChoice(<<TA("C", 62, TBool), TA("C", 63, TBool), TA("C", 64, TBool), TA("A", 127, TNull), TA("A", 128, I07),
+                        TA("P", 16383, TBool), TA("P", 16384, I07), TA("C", 30, TNull), TA("C", 31, TBool), TA("C", 0, I07)>>, FALSE, <<>>)),
   D("K-ext0", TChoice(<<C(I07), C(TBool)>>, TRUE, <<>>)),
   D("K-ext2", TChoice(<<C(I07), C(TBool)>>, TRUE, <<C(TNull), C(IA5)>>)),
   D("K-nest", TChoice(<<C(TRef("K-ib")), C(TNull), C(TSeq(<<C(I07)>>, FALSE, <<>>))>>, FALSE, <<>>)),
@@ -185,6 +195,8 @@ Constructed == <<
   D("L-0-3", TSeqOf(I07, R(0, 3))),
   D("L-1-2-ext", TSeqOf(I07, CExt(R(1, 2)))),
   D("L-null", TSeqOf(TNull, CNone)),
+  D("L-bool-65535", TSeqOf(TBool, R(1, 65535))),
+  D("L-bool-65536", TSeqOf(TBool, R(1, 65536))),
   D("L-seq", TSeqOf(TSeq(<<C(I07), O(TBool)>>, FALSE, <<>>), CNone)),
   D("L-ref", TSeqOf(TRef("K-ib"), CNone)),
   D("L-str", TSeqOf(IA5, CNone)),
